@@ -19,6 +19,9 @@ pub enum Op {
     Write(Vec<u8>),
     Seek(SeekFrom),
     SetLen(u64),
+    /// `set_len` beyond the format's capacity: must be refused with InvalidInput and change nothing;
+    /// towards the model it is `len` (the call's answer is replaced by the length when it was refused)
+    SetLenOver(u64),
     Flush,
     Len,
     Final,
@@ -36,6 +39,7 @@ impl Op {
             Op::Seek(SeekFrom::End(d)) => format!("seek end {}", d),
             Op::Seek(SeekFrom::Current(d)) => format!("seek cur {}", d),
             Op::SetLen(n) => format!("setlen {}", n),
+            Op::SetLenOver(n) => format!("setlen-over {}", n),
             Op::Flush => "flush".into(),
             Op::Len => "len".into(),
             Op::Final => "final".into(),
@@ -53,6 +57,7 @@ impl Op {
             ["seek", "end", d] => Op::Seek(SeekFrom::End(d.parse().ok()?)),
             ["seek", "cur", d] => Op::Seek(SeekFrom::Current(d.parse().ok()?)),
             ["setlen", n] => Op::SetLen(n.parse().ok()?),
+            ["setlen-over", n] => Op::SetLenOver(n.parse().ok()?),
             ["flush"] => Op::Flush,
             ["len"] => Op::Len,
             ["final"] => Op::Final,
@@ -157,7 +162,7 @@ impl VecOracle {
                     self.bad(format!("flush gave {}", out));
                 }
             }
-            Op::Len => {
+            Op::Len | Op::SetLenOver(_) => {
                 if out != format!("num {}", len) {
                     self.bad(format!("len gave {}, expected num {}", out, len));
                 }
@@ -206,7 +211,7 @@ impl Real {
             Ok(s) => s,
             Err(_) => "panic".into(),
         };
-        if let (Some((bytes, state)), true) = (before, out == "err invalidInput") {
+        if let (Some((bytes, state)), true) = (before, out == "err invalidInput" || matches!(op, Op::SetLenOver(_))) {
             let now = self.backing.as_ref().unwrap().snapshot();
             if now != bytes {
                 self.refusal_violations.push(format!("{} was refused ({}) but the file bytes changed", op.render(), out));
@@ -257,6 +262,14 @@ impl Real {
             Op::Seek(p) => res(self.stream.as_mut().unwrap().seek(*p).map(|k| format!("num {}", k))),
             Op::SetLen(n) => res(self.stream.as_mut().unwrap().set_len(*n).map(|_| "unit".into())),
             Op::Flush => res(self.stream.as_mut().unwrap().flush().map(|_| "unit".into())),
+            Op::SetLenOver(n) => {
+                let s = self.stream.as_mut().unwrap();
+                match s.set_len(*n) {
+                    Err(e) if err_kind(&e) == "invalidInput" => format!("num {}", s.len()),
+                    Err(e) => format!("err {} !setlen-over", err_kind(&e)),
+                    Ok(()) => "unit !setlen-over-accepted".into(),
+                }
+            }
             Op::Len => {
                 let s = self.stream.as_ref().unwrap();
                 // `is_empty` is not part of the protocol: it must agree with `len`
@@ -360,6 +373,7 @@ pub fn campaign(seed: u64, count: u64, max_ops: u64, ops_path: &str, impl_path: 
                 },
                 9..=12 => Op::Write(pattern(*r.pick(CHUNKS), r.next() % 1000)),
                 13..=15 => Op::Seek(gen_seek(&mut r, len, pos)),
+                16 if r.below(6) == 0 => Op::SetLenOver(*r.pick(&[1u64 << 45, 0xFFFF_FFFA * 4096 + 1, 1 << 63, u64::MAX, u64::MAX - 4095])),
                 16 => Op::SetLen(match r.below(7) {
                     0 => *r.pick(LENS) as u64,
                     1 => len,
